@@ -1,6 +1,7 @@
 package copyh
 
 import (
+	"sort"
 	"sync"
 	"testing"
 	"testing/synctest"
@@ -18,15 +19,24 @@ var T *testing.T
 // the case seed.
 type sched struct {
 	mu     sync.Mutex
-	parked []chan struct{}
+	parked []parkedOp
 	rng    *common.Rand
 	Steps  int
+	script []int // choices to replay (index among the parked operations in label order)
+	enum   bool  // beyond the script take the first operation (enumeration) instead of a PRNG choice
+	widths []int // number of parked operations at each step
+	taken  []int // choice made at each step
 }
 
-func (s *sched) yield() {
+type parkedOp struct {
+	label string
+	ch    chan struct{}
+}
+
+func (s *sched) yieldL(label string) {
 	ch := make(chan struct{})
 	s.mu.Lock()
-	s.parked = append(s.parked, ch)
+	s.parked = append(s.parked, parkedOp{label, ch})
 	s.mu.Unlock()
 	<-ch
 }
@@ -54,8 +64,19 @@ func runScheduled(s *sched, fn func()) bool {
 				ok = false
 				return
 			}
-			i := s.rng.Intn(len(s.parked))
-			ch := s.parked[i]
+			sort.SliceStable(s.parked, func(a, b int) bool { return s.parked[a].label < s.parked[b].label })
+			var i int
+			switch {
+			case s.Steps < len(s.script):
+				i = s.script[s.Steps] % len(s.parked)
+			case s.enum:
+				i = 0
+			default:
+				i = s.rng.Intn(len(s.parked))
+			}
+			s.widths = append(s.widths, len(s.parked))
+			s.taken = append(s.taken, i)
+			ch := s.parked[i].ch
 			s.parked = append(s.parked[:i], s.parked[i+1:]...)
 			s.Steps++
 			s.mu.Unlock()
